@@ -122,6 +122,7 @@ Section Final.
     - apply ref_EGetTag; auto.
     - apply ref_ESectionTyped; auto.
     - apply ref_RefetchDwarf; auto.
+    - apply ref_DIEAtOutside; auto.
     - apply ref_CUAtFailing; auto.
   Qed.
 
